@@ -31,6 +31,8 @@ func vh05Corpus() [][]vhsOp {
 		{at(0, 0), wk(0, 0, 1), o("create", 0, 1, 0, 2), o("io", 1, 0, 1), o("io", 0, 0, 1), wk(0, 1, 2, 0), wk(0, 1, 1), wk(0, 1, 2), o("open", 0, 2, 0), o("open", 0, 2, 0), o("clunk", 0, 1), o("io", 0, 0, 2)},
 		// attach with a path, failing and succeeding; two connections sharing the tree; disconnect of one
 		{at(0, 0, 0, 1), at(0, 0), o("mk", 0, 0, 0, 0), wk(0, 0, 1, 0), o("mk", 0, 0, 1, 1), at(1, 0, 0, 1), at(1, 1, 0, 2), o("getattr", 1, 0), o("stop", 0), o("getattr", 1, 0), wk(1, 0, 2)},
+		// clone of a fid whose entry was unlinked (no addChild, but the parent reference is still taken), both clunked, directory used after
+		{at(0, 0), o("mk", 0, 0, 0, 1), wk(0, 0, 1, 1), o("unlinkat", 0, 0, 1), wk(0, 1, 2), wg(0, 1, 3), o("clunk", 0, 2), o("clunk", 0, 1), o("getattr", 0, 0), o("clunk", 0, 3), o("getattr", 0, 0), o("clunk", 0, 0)},
 		// remove: of a root, of a file, of an already removed file; xattrcreate then clunk
 		{at(0, 0), o("remove", 0, 0), at(0, 0), wk(0, 0, 1), o("create", 0, 1, 0, 2), wk(0, 0, 2, 0), o("remove", 0, 1), o("remove", 0, 2), wk(0, 0, 3), o("xattrcreate", 0, 3), o("io", 1, 0, 3), o("clunk", 0, 3)},
 	}
